@@ -27,7 +27,7 @@ type c12Replay struct {
 	Entry string `json:"entry"`
 }
 
-var c12Entries = []string{"text", "text-noiter", "json", "yaml", "toml", "dry", "walk", "text-badwriter", "json-badwriter", "verify", "mkdir-dry", "mkdir"}
+var c12Entries = []string{"text", "text-fmt-unequal", "text-noiter", "json", "yaml", "toml", "dry", "walk", "text-badwriter", "json-badwriter", "verify", "mkdir-dry", "mkdir"}
 
 // watchdog: a case that does not return within 30 s (typical: microseconds) is reported as a hang and the shard stops.
 var (
@@ -39,6 +39,9 @@ func c12Call(entry, in string, jail *fsx.Jail) (out string, err error, pan strin
 	switch entry {
 	case "text":
 		return sut.Output(in)
+	case "text-fmt-unequal":
+		// branch strings of unequal widths, one of them empty
+		return sut.Output(in, gtree.WithBranchFormatIntermedialNode("|-", "| "), gtree.WithBranchFormatLastNode("`----", ""))
 	case "text-noiter":
 		return sut.Output(in, gtree.WithNoUseIterOfSimpleOutput())
 	case "json":
